@@ -358,6 +358,7 @@ def parseEv (s : String) : Option Ev :=
   | ["sa", id, codes] => do pure (.inb (.suback (← id.toNat?) (← Oracle.parseDesc codes)))
   | ["ua", id] => do pure (.inb (.unsuback (← id.toNat?)))
   | ["pg"] => some (.inb .pingresp)
+  | ["fast"] => some (.cancel 1000000000)   -- harness hint (the next request is answered before its Write returns): a model no-op
   | ["in", q, id] => do pure (.inb (.publish (← q.toNat?) (← id.toNat?)))
   | ["rel", id] => do pure (.inb (.pubrel (← id.toNat?)))
   | ["bad"] => some (.inb .malformed)
@@ -489,6 +490,17 @@ def handle (toks : List String) : Option String :=
           let h2 := scriptFn callerS h1 p          -- the caller reuses its message
           let h3 := scriptFn handlerS h2 c         -- the deferred handler body
           (h3, vs ++ [v])) (h2, [])
+        return (String.intercalate " " views ++ " | caller=" ++ showView (hf.view p))
+      | _ => none
+    if _mode = "asyncmuxd" then
+      match scripts with
+      | callerS :: handlerSs =>
+        let (hf, views) := (List.range (← rounds.toNat?)).foldl (fun (acc : Heap × List String) _ =>
+          let (h, vs) := acc
+          let (h1, c) := asyncServe h p            -- ServeAsync clones before Serve returns …
+          let h2 := scriptFn callerS h1 p          -- … the caller reuses its message …
+          let (h3, mv) := muxRun h2 (handlerSs.map scriptFn) c   -- … and the mux behind it runs later, on the clone
+          (h3, vs ++ mv.map showView)) (h2, [])
         return (String.intercalate " " views ++ " | caller=" ++ showView (hf.view p))
       | _ => none
     let (h3, views) := c20Rounds (← rounds.toNat?) h2 fs p []
